@@ -26,6 +26,8 @@ def sh(cmd, cwd=None, env=None, timeout=3600):
 
 def main():
     pid, k = sys.argv[1], sys.argv[2]
+    if "--recheck" in sys.argv:
+        return recheck(pid, k)
     suite = "--no-suite" not in sys.argv
     check_ids = [pid]
     if "--check-id" in sys.argv:
@@ -94,6 +96,37 @@ def main():
     json.dump(out, open(os.path.join(d, "meta.json"), "w"), indent=1)
     print(pid, k, "confirmed" if confirmed else "NOT CONFIRMED", "detected=%s" % detected,
           ran.get("suite_summary", ""), [c["lines"][-2:] for c in ran["checks"].values()])
+
+
+def recheck(pid, k):
+    """Re-run only the quick check against the recorded patch (after the check was strengthened)."""
+    d = "/verif/seeded/%s-%s" % (pid, k)
+    meta = json.load(open(os.path.join(d, "meta.json")))
+    S = "/var/tmp/ag-seed-%s-%s-%d" % (pid, k, os.getpid())
+    shutil.rmtree(S, ignore_errors=True)
+    os.makedirs(S)
+    try:
+        sh("rsync -a --exclude .git /repo/ %s/" % S)
+        rca, outa = sh("patch -p1 -s < %s" % os.path.join(d, "patch.diff"), cwd=S)
+        cids = sys.argv[sys.argv.index("--check-id") + 1:] if "--check-id" in sys.argv else [pid]
+        res = {}
+        for cid in cids:
+            rc, out = sh("VERIF_REPO=%s VERIF_SEED=1 ./check %s --tier quick" % (S, cid), cwd="/verif", timeout=3000)
+            lines = [l for l in out.splitlines() if l.startswith(("VIOLATION", "KNOWN-FINDING", cid))]
+            res[cid] = {"patch_applies": rca == 0, "exit": rc, "lines": lines[-4:]}
+            m = re.search(r"replay=(\S+)", out)
+            if m and os.path.exists(m.group(1)):
+                rj = json.load(open(m.group(1)))
+                res[cid]["replay_kind"] = rj.get("kind")
+                res[cid]["replay_why"] = str(rj.get("why", rj.get("broken", "")))[:400]
+                res[cid]["replay_case"] = json.dumps(rj.get("case"))[:300]
+    finally:
+        shutil.rmtree(S, ignore_errors=True)
+    meta.setdefault("rechecks", []).append({"verif_commit": sh("git -C /verif rev-parse --short HEAD")[1].strip(), "checks": res})
+    meta["detected_by_quick_check_now"] = {cid: (c["exit"] == 1 and any(l.startswith("VIOLATION") and "no-failing-input-found" not in l
+                                                                         for l in c["lines"])) for cid, c in res.items()}
+    json.dump(meta, open(os.path.join(d, "meta.json"), "w"), indent=1)
+    print(pid, k, "recheck", meta["detected_by_quick_check_now"], [c["lines"][-2:] for c in res.values()])
 
 
 if __name__ == "__main__":
